@@ -300,6 +300,16 @@ def gen_targeted_policy(rng, rs, env, pid):
             p = r.choice(st)
         if not ok:
             continue
+        if p[1][0] == "entity" and r.random() < 0.3:
+            # the dereference chain sits in an operand whose static type is a constant (False): it is still EVALUATED, so it
+            # still counts for the level (a typed AST that drops such operands would under-count)
+            others = [n for n in sorted(rs["etypes"]) if n != p[1][1]]
+            dead = ("hasattr", p[0], "zz_undeclared") if (r.random() < 0.6 or not others) else ("is", p[0], r.choice(others))
+            live = lg.g.closed_atom_nonconst()
+            body = r.choice([("or", dead, live), ("if", dead, TRUE, live), ("or", ("and", dead, live), live)])
+            pol = {"id": pid, "effect": "permit", "principal": ("is", env.principal), "action": ("eq", env.action),
+                   "resource": ("is", env.resource), "conds": [("when", body)], "annotations": []}
+            return pol, ["targeted:" + kind, "targeted:const-typed-operand"], p[3] + 1
         st = [x for x in lg.steps(p) if len(x[2]) == len(p[2]) and x[1][0] in ("bool", "long", "string", "entity")]
         if not st:
             continue
